@@ -4,7 +4,7 @@ import subprocess
 s = open("/verif/DESIGN.md").read()
 seeded = subprocess.run(["python3", "/verif/tools/seeded_table.py"], capture_output=True, text=True).stdout
 benign = subprocess.run(["python3", "/verif/tools/benign_table.py"], capture_output=True, text=True).stdout
-a = s.index("| id | change (one line) | confirmed | check | violation class(es) / note |")
+a = s.index("| id | change (one line) | confirmed | check | violation class(es) / note")
 b = s.index("### 7.8 What wave 1 changed in the machinery")
 s = s[:a] + seeded + "\n" + s[b:]
 if "BENIGN-TABLE" in s:
